@@ -7,7 +7,7 @@
 (*                        real generated Rust code by tools/zoogen.py),    *)
 (*   <<"REPLAY", json>>  once per (type, value).                           *)
 (***************************************************************************)
-EXTENDS Zoo, TLC, Json
+EXTENDS Zoo, UperSM, TLC, Json
 
 CONSTANT Dev        \* open findings (deviation switches)
 
@@ -56,6 +56,15 @@ RefOk ==
                  off == IF t.ext THEN 1 ELSE 0
              IN /\ (t.ext => c.bits[1] = BoolBit(\E i \in 1..Len(t.comps) : ~IsRoot(t, i) /\ Present(t, c.v, i)))
                 /\ \A j \in 1..Len(opt) : c.bits[off + j] = BoolBit(Present(t, c.v, opt[j])))
+
+\* M for the writer machine (UperSM): back-patched presence bits, call counter, lazily written extension header and
+\* the open-type wrap rule together produce exactly the bits of the clause-by-clause definition, and the machine
+\* refuses exactly the values the definition refuses plus the documented inconsistent patterns
+Refines ==
+  st = "case" /\ ~IsBig(c.ti) =>
+    LET r == Write(Zoo[c.ti], c.v)
+    IN /\ r.ok = (c.ok /\ ~c.incons)
+       /\ (r.ok => r.buf = c.bits)
 
 Emit ==
   /\ (st = "type" => PrintT(<<"ZOO", ToJson([ti |-> c.ti, t |-> Zoo[c.ti]])>>))
